@@ -189,6 +189,18 @@ pub(super) fn generate_parser_actions(generator: &ParserGenerator) -> Result<()>
             }
         });
 
+    // syn keeps items it can't represent (e.g. a function without a body) as
+    // verbatim tokens which prettyplease refuses to print by panicking.
+    if let Some(syn::Item::Verbatim(item)) = ast
+        .items
+        .iter()
+        .find(|item| matches!(item, syn::Item::Verbatim(_)))
+    {
+        return Err(Error::Error(format!(
+            "Unsupported item '{item}' in the actions file {action_file:?}."
+        )));
+    }
+
     println!("Writing actions file {action_file:?}");
     std::fs::create_dir_all(&generator.out_dir_actions).map_err(|e| {
         Error::Error(format!(
